@@ -209,6 +209,26 @@ def generate(tier):
                 add(build('union', 'n', [('d', 'u16')], [0], vstyles=['x'] * nf, focus=p, marker=True, tl=new, tag='|mark'))
                 if nf == 1:
                     add(build('union', 'n', [('d', 'u16')], [0], vstyles=['x'] * nf, focus=p, marker=False, tl=new, tag='|nomark'))
+    # wide: the default variant at every position of 4- and 5-variant enums; 4-5 field elements with one or two expression fields
+    for vn in (4, 5):
+        for p_ in range(vn):
+            vst = [('u', 't', 'n')[(i + vn) % 3] for i in range(vn)]
+            fst = vst[p_]
+            vst[p_] = 'F'
+            ch = [] if fst == 'u' else [('d', 'u8')]
+            add(build('enum', fst, ch, [0] * len(ch), vstyles=vst, focus=p_, marker=True, tl='new' if p_ % 2 else 'none', tag='|wide'))
+    base = [('d', 'u8'), ('d', 'V'), ('d', 'String'), ('d', 'u16'), ('d', 'bool')]
+    exprs = ['int/u8', 'call/V', 'str/String', 'ints/u16', 'bool/bool']
+    for n in (4, 5):
+        for r in (1, 2):
+            for where in itertools.combinations(range(n), r):
+                ch = list(base[:n])
+                for w in where:
+                    ch[w] = exprs[w]
+                sps = [(w * 2 + r) % 5 for w in range(n)]
+                for style in 'tn':
+                    add(build('struct', style, ch, sps, tag='|wide'))
+                    add(build('enum', style, ch, sps, vstyles=['u', 't', 'n', 'F'], focus=3, tag='|wide'))
     # unit / empty structs, new
     for style, n in (('u', 0), ('t', 0), ('n', 0)):
         for new in ('none', 'new'):
